@@ -377,7 +377,15 @@ func c04StoreCase(r *Run, idx int, rng *rand.Rand, nKeys, nTicks int, stepMode s
 		}
 		live[k] = &c04Live{key: k, val: v, dLo: lo + int64(ttl), dHi: hi + int64(ttl), cls: why + "-" + cl.name}
 	}
+	// a quarter of the keys start without a deadline and get one later through an update
+	plain := map[int]bool{}
 	for k := 0; k < nKeys; k++ {
+		if rng.Intn(4) == 0 {
+			seq++
+			s.c.Set(k, int64(idx)<<40|seq, 1)
+			plain[k] = true
+			continue
+		}
 		setTTL(k, "set")
 	}
 	s.c.Wait()
@@ -394,6 +402,9 @@ func c04StoreCase(r *Run, idx int, rng *rand.Rand, nKeys, nTicks int, stepMode s
 			k := rng.Intn(nKeys)
 			if _, ok := live[k]; ok {
 				setTTL(k, "retime")
+			} else if plain[k] {
+				delete(plain, k)
+				setTTL(k, "added") // first deadline of an entry that had none
 			} else {
 				setTTL(k, "set")
 			}
@@ -439,6 +450,8 @@ func c04StoreCase(r *Run, idx int, rng *rand.Rand, nKeys, nTicks int, stepMode s
 				cause := "late-reclaim/store/"
 				if lv.cls[:3] == "ret" {
 					cause += "after-ttl-change"
+				} else if lv.cls[:3] == "add" {
+					cause += "ttl-added-by-update"
 				} else {
 					cause += "never-retimed"
 				}
